@@ -193,9 +193,24 @@ def r3_skip_whitelist(ctx):
     n_skip = 0
     from ..terms import _ends_with_return
 
+    chain_names = {c.name for c in chain} | {'_decrypt_snapshot_body', 'deserialize'}
+
+    def _is_body(f, v, depth=0):
+        """The returned expression is a snapshot body: a call of a loader-chain function /
+        the decoder, or a local assigned from one."""
+        if depth > 3 or v is None:
+            return False
+        if isinstance(v, ast.Call):
+            d = dotted(v.func) or ''
+            return d.startswith('self.') and d[5:] in chain_names
+        if isinstance(v, ast.Name):
+            defs = [a.value for a in walk_local(f.node) if isinstance(a, ast.Assign) and any(isinstance(t, ast.Name) and t.id == v.id for t in a.targets)]
+            return bool(defs) and all(_is_body(f, d, depth + 1) for d in defs)
+        return False
+
     for f in chain:
         for r in walk_local(f.node):
-            if isinstance(r, ast.Return) and (r.value is None or (isinstance(r.value, ast.Constant) and r.value.value is None)):
+            if isinstance(r, ast.Return) and not _is_body(f, r.value):
                 n_skip += 1
                 guard = None
                 cur = r
@@ -228,6 +243,29 @@ def r3_skip_whitelist(ctx):
                 f'{f.qual}: can fall off the end and return None - the snapshot would be silently skipped',
             )
     ctx.floor('C02.R3', 'whitelisted skip paths in the snapshot loader', n_skip, 2)
+    # every listed snapshot path is handed to the loader (no listing entry is dropped)
+    from ..cfg import cfg_of
+
+    lcfg = cfg_of(ls.node)
+    loops = [l for l in walk_local(ls.node) if isinstance(l, (ast.For, ast.AsyncFor)) and any(isinstance(a, ast.Attribute) and a.attr == 'list_files' for a in ast.walk(l.iter))]
+    ctx.floor('C02.R3', 'loop over the snapshot listing', len(loops))
+    for l in loops:
+        subs = [enclosing_stmt(c) for c in calls_in(l) if isinstance(c.func, ast.Attribute) and c.func.attr in ('run_in_executor', 'submit') and any(isinstance(a, ast.Name) and a.id in {e.name for e in entries} for a in c.args) and any(isinstance(a, ast.Name) and a.id == getattr(l.target, 'id', None) for a in c.args)]
+        sub_ok = [x for st in subs for x in lcfg.nodes_of(st, 'ok')]
+        heads = lcfg.nodes_of(l, 'loop')
+        bad = None
+        for t in lcfg.nodes_of(l, 'true'):
+            bad = bad or lcfg.path(t, heads, avoid=sub_ok, kinds=('normal',))
+        exits = [n for n in walk_local(l) if isinstance(n, (ast.Break, ast.Return))]
+        ctx.check(
+            bool(subs) and bad is None and not exits,
+            'C02.R3',
+            f'{func_label(ls)}|every-listed-snapshot-submitted',
+            loc(ls, l),
+            '_load_snapshots submits a load for every path the listing returns (no iteration skips the submission, no early exit)',
+            '_load_snapshots can pass over a listed snapshot without loading it (an iteration path that does not submit the loader, or an early exit): '
+            'delete/clean then compute their keep sets without that snapshot and remove its chunks',
+        )
     # the consumer drops only None
     drops = []
     for n in walk_local(ls.node):
@@ -505,6 +543,10 @@ def r8_skip_upload_only_on_backend_answer(ctx, rule='C02.R8'):
 
 
 def run(ctx):
+    from ..report import Relabel
+    from .c14 import r5_no_stale_key_state
+
+    r5_no_stale_key_state(Relabel(ctx, 'C02.R10'))
     roles = DeleteRoles(ctx.corpus)
     ctx.analysed(roles.fn, *roles.fn.all_nested())
     sub = r1_keep_set(ctx, roles)
